@@ -386,7 +386,14 @@ func (c *Cache) GnmiUpdate(n *pb.Notification) error {
 func (t *Target) GnmiUpdate(n *pb.Notification) error {
 	updateTS := false
 	if u := n.GetUpdate(); len(u) > 0 {
-		if p := u[0].GetPath().GetElem(); len(p) > 0 && p[0].GetName() != metadata.Root {
+		// Decide on the index path (prefix + path, or the prefix alone for an
+		// atomic group), as gnmiUpdate does: deprecated element paths and
+		// updates carrying the whole path in the prefix count too.
+		suffix := u[0].GetPath()
+		if n.GetAtomic() {
+			suffix = nil
+		}
+		if p := append(path.ToStrings(n.GetPrefix(), true), path.ToStrings(suffix, false)...); len(p) > 1 && p[1] != metadata.Root {
 			// Record latest timestamp from the device, excluding all 'meta' paths.
 			defer func(ts int64) {
 				if updateTS {
